@@ -202,6 +202,15 @@ def main():
                         if not ok: break
                         if be > 1e-9:
                             bad(idx, f"LU certificate fails at {key}: backward error {be:.3e}"); ok = False; break
+                        # the damping term itself: with the extracted lambda the residual A d - b is pure
+                        # rounding noise (~1e-16 of den); a solve that used another damping (0, 2*lambda,
+                        # lambda on part of the diagonal) leaves a residual of about lambda*|d|, which the
+                        # relative test above cannot see when |J^T J| is large
+                        dn = np.linalg.norm(dvec, np.inf)
+                        if dn > 0 and lam > 0 and lam * dn > 1e4 * 2.2e-16 * den:
+                            S["damping_certificates"] = S.get("damping_certificates", 0) + 1
+                            if num > 0.25 * lam * dn + 1e3 * 2.2e-16 * den:
+                                bad(idx, f"damping certificate fails at {key}: |A d - b| = {num:.3e} is of the order of lambda*|d| = {lam * dn:.3e} (the linear solve did not use the extracted damping)"); ok = False; break
             # SVD certificates (against the Jacobian of the last iteration of that call)
             if ok:
                 for ci, (ni, steps, svd) in enumerate(calls):
